@@ -219,6 +219,13 @@ impl<'a> TextExtractor<'a> {
 
         // collected arguments for an operator
         let mut args = Vec::new();
+
+        // A content stream with nothing but whitespace and comments
+        // (e.g. a blank page) has no text.
+        ws.parse(buf)?;
+        if buf.remaining() == 0 {
+            return Ok(texts)
+        }
         loop {
             // First, consume possibly empty whitespace.
             ws.parse(buf)?;
